@@ -214,7 +214,7 @@ func runC04(c *Ctx) {
 	addParam := -1
 	for _, s := range CallsIn(addBlock, "(*blockchain.DataAccess).saveBlock") {
 		if finParam >= 0 && finParam < len(s.Call.Common().Args) {
-			t := T(s.Call.Common().Args[finParam])
+			t := T(ArgK(s.Call, finParam))
 			if t.Op == "param" {
 				fmt.Sscanf(t.Sym, "p%d", &addParam)
 			}
@@ -236,7 +236,7 @@ func runC04(c *Ctx) {
 		}
 		n++
 		ff := factsOf(s.Fn)
-		arg := s.Call.Common().Args[addParam]
+		arg := ArgK(s.Call, addParam)
 		t := ff.Term(arg)
 		key := FuncKey(s.Fn) + " ⇒ Chain.AddBlock(finalizedHeight)"
 		isGenesis := len(CallsIn(s.Fn, "(*blockchain.Block).ValidateGenesis")) > 0
